@@ -69,6 +69,9 @@ VARIANTS = {
     "tsan": ("clang", ["-O1", "-g", "-fno-omit-frame-pointer", "-fsanitize=thread"], True),
     "plain": ("clang", ["-O2", "-g"], True),
     "plain-bundled": ("clang", ["-O2", "-g"], False),
+    # development aid (./vf coverage): which repository lines do the checks execute at all
+    "cov": ("clang", ["-O0", "-g", "-fprofile-instr-generate", "-fcoverage-mapping"], True),
+    "cov-bundled": ("clang", ["-O0", "-g", "-fprofile-instr-generate", "-fcoverage-mapping"], False),
 }
 
 
